@@ -73,6 +73,11 @@ CHECKS = {
         technique='model-based test generation: JSON values enumerated by TLC from the generator JsonValue.tla per theme (all number spellings, all string escapes, key kinds, nesting), spelled and replayed into ast_to_dict; json.loads of the spelled text is the expected value',
         text='Every value the generator derives within the bounds (nodes, depth, width) for four themes x {var, assignment, nested in a function} x {fold_ops off, on}; the extracted dictionary must equal exactly {name: JSON value} with type-exact comparison.  TLC only enumerates here; the claim is exhaustive exploration of the bounded value space, not a proof about the Python function.',
         note='json.loads is the oracle for the spelled literal; the sign of an integer zero is not compared; spellings are the JSON-compatible ones.'),
+    'C12': dict(
+        category='exploration', design_ref='5 (C12)',
+        technique='exhaustive short strings over a nasty character alphabet + all truncations and seeded single-character mutations of TLC-derived programs, run under a watchdog; exception type judged directly, message positions validated by PosTrace.tla (LineCol machine)',
+        text='Every string up to length k over 39 characters (incl. NUL, lone surrogate, astral, BOM, LS, quote / backslash / slash / star starters) and longer ones over 18 characters, plus every truncation and seeded single-character deletion / replacement / insertion of TLC-derived programs, is parsed with and without comment capture and lexed: the outcome must be a tree or ECMASyntaxError (subclass), within the watchdog; TLC checks that the line:column of each message is a LineCol position of the input at which the quoted text occurs.  Totality is explored on this domain, not proved.',
+        note='Watchdog 10 s per input stands for non-termination; RecursionError is treated as a Python resource limit; the message grammar is parsed by the harness.'),
 }
 
 NOT_YET = {}
